@@ -66,6 +66,9 @@ func (in *Interp) mapUpdate(m *MapV, k, v Value, fr *frame) {
 	if m.Nil {
 		in.goPanic("assignment to entry in nil map in %s", fr.fn.Name())
 	}
+	if m.Glob != "" && !in.inInit && !isHarnessFn(fr.fn) {
+		in.gwrites[m.Glob+" (map update) in "+fr.fn.String()] = true
+	}
 	k = in.mapKey(k)
 	if e := in.findEntry(m, k); e != nil {
 		e.V = v
